@@ -148,6 +148,17 @@ template<typename T> static std::string do_grant(const std::string& src, i128 nu
   return std::string("ok ") + show((const void*)r.UNSAFE_unverified()) + " copied=" + (copied ? "1" : "0") + " " + touched();
 }
 
+// copy_memory_or_grant_access when the allocator inside the sandbox (guest code) returns `forced` and the backend does not clamp
+template<typename T> static std::string do_grantf(const std::string& src, i128 num, i128 forced)
+{
+  bool copied = false;
+  T* s = reinterpret_cast<T*>(addr_of(src));
+  vsbx::g_malloc_force = true; vsbx::g_malloc_force_value = (uint64_t)forced; vsbx::g_unclamped = true;
+  struct Reset { ~Reset() { vsbx::g_malloc_force = false; vsbx::g_unclamped = false; } } reset;
+  auto r = rlbox::copy_memory_or_grant_access(g_sb0, s, (size_t)(uint64_t)num, false, copied);
+  return std::string("ok ") + show((const void*)r.UNSAFE_unverified()) + " copied=" + (copied ? "1" : "0") + " " + touched();
+}
+
 template<template<typename> class F> struct ByEl;
 #define DISPATCH_EL(fn, ty, ...)                                                                   \
   (ty == "char" ? fn<char>(__VA_ARGS__) : ty == "short" ? fn<short>(__VA_ARGS__)                   \
@@ -184,6 +195,12 @@ int main()
         if (t[1] == "char") return do_deny<char>(t[2], parse_dec(t[3]));
         if (t[1] == "short") return do_deny<short>(t[2], parse_dec(t[3]));
         if (t[1] == "double") return do_deny<double>(t[2], parse_dec(t[3]));
+        return "badop";
+      }
+      if (op == "grantf" && t.size() == 5) {
+        if (t[1] == "char") return do_grantf<char>(t[2], parse_dec(t[3]), parse_dec(t[4]));
+        if (t[1] == "short") return do_grantf<short>(t[2], parse_dec(t[3]), parse_dec(t[4]));
+        if (t[1] == "double") return do_grantf<double>(t[2], parse_dec(t[3]), parse_dec(t[4]));
         return "badop";
       }
       if (op == "grant" && t.size() == 4) {
